@@ -5,7 +5,7 @@ from tools.props.weaver_units import WeaverUnit
 
 class P(Property):
     id = "C09"
-    gen_targets = ["Funfit", "WeaverFootprint"]
+    gen_targets = ["Funfit", "WeaverFootprint", "WeaverGlue"]
 
     def units(self, tier):
         return [WeaverUnit(("C09",), max_len=10)]
